@@ -89,12 +89,13 @@ theorem C03_record_fields :
       ("valueDeclaration", "oid", "objectIdentifier")
     ].all (fun t => feeds t.1 t.2.1 == some t.2.2) = true := by decide
 
-/-- **C03_clause_values**: the value of a STATUS / MAX-ACCESS / LAST-UPDATED / DISPLAY-HINT / PRODUCT-RELEASE clause
-reaches the handler of the declaration unchanged (the tag's handler returns its argument); UNITS, DESCRIPTION, REFERENCE,
-ORGANIZATION, CONTACT-INFO go through the text filter and nothing else -/
+/-- **C03_clause_values**: the value of a STATUS / MAX-ACCESS / LAST-UPDATED / DISPLAY-HINT clause reaches the handler of the
+declaration unchanged (the tag's handler returns its argument); UNITS, DESCRIPTION, REFERENCE, ORGANIZATION, CONTACT-INFO and
+PRODUCT-RELEASE (since repair of the handler in /repo; it used to be handed on as written) go through the text filter and
+nothing else.  A DISPLAY-HINT is a format, not prose: blanks in it are separators to be printed. -/
 theorem C03_clause_values :
-    (["Status", "MaxAccessPart", "LAST-UPDATED", "DISPLAY-HINT", "PRODUCT-RELEASE"].all (fun t => kindOf t == some "identity") &&
-     ["UNITS", "DESCRIPTION", "REFERENCE", "ORGANIZATION", "CONTACT-INFO"].all (fun t => kindOf t == some "filtered")) = true := by
+    (["Status", "MaxAccessPart", "LAST-UPDATED", "DISPLAY-HINT"].all (fun t => kindOf t == some "identity") &&
+     ["UNITS", "DESCRIPTION", "REFERENCE", "ORGANIZATION", "CONTACT-INFO", "PRODUCT-RELEASE"].all (fun t => kindOf t == some "filtered")) = true := by
   decide
 
 /-- the tags the parser puts in front of those values are the ones `handlersTable` dispatches on -/
